@@ -60,6 +60,11 @@ type upCase struct {
 	Stored     []int     `json:"stored"`
 	FailedFile int       `json:"failedfile"`
 	Scaled     bool      `json:"scaled"`
+	// big
+	Kind  string `json:"kind"`  // metric | config | name | namekv | noise | bigfile
+	Len   int    `json:"len"`   // line length (metric, noise), value length (config, name, namekv), file size in bytes (bigfile)
+	Pos   int    `json:"pos"`   // which file of the upload (0-based) is the large one
+	Local bool   `json:"local"` // file store on the local file system (stored bytes are compared)
 	// ids
 	Steps []struct {
 		U string `json:"u"`
@@ -1135,6 +1140,445 @@ func upWideFault(c *upCase) Verdict {
 	return pass()
 }
 
+// ---------------------------------------------------------------- large inputs
+//
+// All-or-nothing and "every record of every file is queryable" do not depend on how long a
+// line, a label value or a file is; the model has two records of a few bytes.  Case tag
+// "big": an upload of c.Files files after an earlier successful upload, one of its files
+// carrying
+//
+//	metric   a result line of c.Len bytes (many metrics)
+//	noise    a line of c.Len bytes that is neither a result nor a configuration line
+//	config   a configuration value of c.Len bytes (in force for the results after it)
+//	name     an unnamed sub-name part of c.Len bytes
+//	namekv   a key=value sub-name part whose value has c.Len bytes
+//	bigfile  c.Len bytes of ordinary content (runs of repeated results under changing labels)
+//
+// The server may accept or refuse such an upload (refusing is demanded to be an error reply,
+// and ordinary sizes must be accepted); the judgement is the statement's either-or:
+// accepted = every result of every file is returned by the queries that select it (whole
+// store, per upload, per part, by the large value itself, by range terms just below and
+// above it), the listing counts its records, every file is stored completely behind the
+// server's header; refused = nothing of it is visible or stored.  In both cases queries
+// keep working, the earlier upload is untouched and a later upload gets a fresh, larger ID
+// and is complete.
+
+type upBigProbe struct {
+	q    string // appended to "upload:<id> "
+	want int
+}
+
+type upBigFile struct {
+	name    string
+	content []byte
+	names   []string // value of the label "name" of every result, in order
+	nrec    int      // records = maximal runs of results with identical labels
+	probes  []upBigProbe
+}
+
+func upFill(n int, salt int) string {
+	const abc = "abcdefghijklmnopqrstuvwxyz0123456789"
+	b := make([]byte, n)
+	for i := range b {
+		b[i] = abc[(i*7+salt+i/36)%len(abc)]
+	}
+	return string(b)
+}
+
+func upBigFiles(c *upCase) []upBigFile {
+	var out []upBigFile
+	for f := 0; f < c.Files; f++ {
+		var sb bytes.Buffer
+		bf := upBigFile{name: fmt.Sprintf("big%d.txt", f)}
+		fmt.Fprintf(&sb, "goos: linux\nfkey%d: v%d\n", f, c.ID)
+		large := f == c.Pos%c.Files
+		if large && c.Kind == "bigfile" {
+			// runs of 40 results (a benchmark repeated, as with -count) under a label that changes per run
+			run := 0
+			for sb.Len() < c.Len {
+				run++
+				fmt.Fprintf(&sb, "run: r%d\n", run)
+				for i := 0; i < 40; i++ {
+					fmt.Fprintf(&sb, "BenchmarkBigF%dRun%d-8 \t%8d\t%12d ns/op\t%10d B/op\t%8d allocs/op\t%s\n", f, run, 1000+i, 100000+run*41+i, 4096+i, 17+i%3, "12.5 MB/s")
+					bf.names = append(bf.names, fmt.Sprintf("BigF%dRun%d", f, run))
+				}
+				bf.nrec++
+			}
+			bf.probes = append(bf.probes,
+				upBigProbe{"run:r1", 40}, upBigProbe{fmt.Sprintf("run:r%d", run), 40}, upBigProbe{fmt.Sprintf("run:r%d", (run+1)/2), 40},
+				upBigProbe{fmt.Sprintf("name:BigF%dRun%d", f, run), 40}, upBigProbe{fmt.Sprintf("fkey%d:v%d", f, c.ID), len(bf.names)})
+		} else {
+			for j := 1; j <= 3; j++ {
+				fmt.Fprintf(&sb, "rec: r%d\n", j)
+				name := fmt.Sprintf("F%dR%d", f, j)
+				line := fmt.Sprintf("Benchmark%s 1 %d ns/op", name, 10*f+j)
+				if large && j == 2 {
+					switch c.Kind {
+					case "metric":
+						var lb strings.Builder
+						lb.WriteString(line)
+						for k := 0; lb.Len() < c.Len; k++ {
+							m := fmt.Sprintf(" %d m%d/op", k+1, k)
+							if lb.Len()+len(m) > c.Len || c.Len-lb.Len()-len(m) < 8 {
+								m = " 1 " + upFill(c.Len-lb.Len()-3, k)
+							}
+							lb.WriteString(m)
+						}
+						line = lb.String()
+					case "noise":
+						sb.WriteString("--- " + upFill(c.Len-4, f) + "\n")
+					case "config":
+						v := upFill(c.Len, f+3)
+						sb.WriteString("cmd: " + v + "\n")
+						// in force for results 2 and 3 of this file
+						bf.probes = append(bf.probes, upBigProbe{"cmd:" + v, 2})
+						if c.Len > 1 {
+							bf.probes = append(bf.probes, upBigProbe{"cmd>" + v[:c.Len-1], 2}, upBigProbe{"cmd:" + v[:c.Len-1], 0}, upBigProbe{"cmd<" + v[:c.Len-1], 0})
+						}
+						bf.probes = append(bf.probes, upBigProbe{"cmd<" + v + "~", 2}, upBigProbe{"cmd:" + v + "a", 0}, upBigProbe{"cmd>" + v + "~", 0}, upBigProbe{"cmd>" + v, 0}, upBigProbe{"cmd<" + v, 0})
+					case "name", "namekv":
+						v := upFill(c.Len, f+5)
+						key := "sub1"
+						if c.Kind == "namekv" {
+							key = "wide"
+							line = fmt.Sprintf("Benchmark%s/wide=%s 1 %d ns/op", name, v, 10*f+j)
+						} else {
+							line = fmt.Sprintf("Benchmark%s/%s 1 %d ns/op", name, v, 10*f+j)
+						}
+						bf.probes = append(bf.probes, upBigProbe{key + ":" + v, 1}, upBigProbe{key + "<" + v + "~", 1}, upBigProbe{key + ":" + v + "a", 0})
+						if c.Len > 1 {
+							bf.probes = append(bf.probes, upBigProbe{key + ">" + v[:c.Len-1], 1}, upBigProbe{key + ":" + v[:c.Len-1], 0})
+						}
+					}
+				}
+				sb.WriteString(line + "\n")
+				bf.names = append(bf.names, name)
+				bf.nrec++
+				bf.probes = append(bf.probes, upBigProbe{"name:" + name, 1}, upBigProbe{fmt.Sprintf("rec:r%d fkey%d:v%d", j, f, c.ID), 1})
+			}
+		}
+		bf.content = sb.Bytes()
+		out = append(out, bf)
+	}
+	return out
+}
+
+func upBig(c *upCase) Verdict {
+	if c.Files < 1 {
+		c.Files = 1
+	}
+	a, err := upNewApp(c.Local, false)
+	if err != nil {
+		return fail("harness", "%v", err)
+	}
+	defer a.close()
+	what := fmt.Sprintf("upload of %d files, file %d with %s of %d bytes", c.Files, c.Pos%c.Files, c.Kind, c.Len)
+	small := func(salt int) (string, []string, Verdict) {
+		b := upBuildBody(1, 2, 0, 0, salt)
+		code, resp := a.post(b.ctype, bytes.NewReader(b.data))
+		var st struct {
+			UploadID string `json:"uploadid"`
+		}
+		if code != 200 {
+			return "", nil, fail("status", "%s: an ordinary upload (1 file, 2 records) is refused: HTTP %d %q", what, code, strings.TrimSpace(resp))
+		}
+		if err := json.Unmarshal([]byte(resp), &st); err != nil || !upIDRe.MatchString(st.UploadID) {
+			return "", nil, fail("id-format", "upload status %q", resp)
+		}
+		return st.UploadID, []string{st.UploadID + "/0|F1R1", st.UploadID + "/0|F1R2"}, pass()
+	}
+	earlyID, want, v := small(c.ID + 7777)
+	if !v.OK {
+		return v
+	}
+	files := upBigFiles(c)
+	var buf bytes.Buffer
+	mw := multipart.NewWriter(&buf)
+	for _, bf := range files {
+		w, _ := mw.CreateFormFile("file", bf.name)
+		w.Write(bf.content)
+	}
+	mw.Close()
+	code, resp := a.post(mw.FormDataContentType(), bytes.NewReader(buf.Bytes()))
+	ok := code == 200
+	if !ok && (c.Kind != "bigfile" && c.Len <= 4096 || c.Kind == "bigfile" && c.Len <= 1<<20) {
+		return fail("status", "%s: HTTP %d %q, want success", what, code, strings.TrimSpace(resp))
+	}
+	outcome := "refused"
+	newID := ""
+	total, nrec := 0, 0
+	if ok {
+		outcome = "accepted"
+		var st struct {
+			UploadID string   `json:"uploadid"`
+			FileIDs  []string `json:"fileids"`
+		}
+		if err := json.Unmarshal([]byte(resp), &st); err != nil || !upIDRe.MatchString(st.UploadID) {
+			return fail("id-format", "upload status %q", resp)
+		}
+		newID = st.UploadID
+		if newID == earlyID || !upIDLess(earlyID, newID) {
+			return fail("id-order", "upload ID %s does not follow %s", newID, earlyID)
+		}
+		if len(st.FileIDs) != len(files) {
+			return fail("file-ids", "%s: accepted with file ids %v", what, st.FileIDs)
+		}
+		for f, bf := range files {
+			for _, n := range bf.names {
+				want = append(want, fmt.Sprintf("%s/%d|%s", newID, f, n))
+			}
+			total += len(bf.names)
+			nrec += bf.nrec
+		}
+	}
+	judge := func(stage string) Verdict {
+		recs, err := a.records()
+		if err != nil {
+			return fail("query-fails-after-"+outcome+"-upload", "%s, %s (HTTP %d), %s: Query(\"\") fails: %v", what, outcome, code, stage, err)
+		}
+		sort.Strings(want)
+		if len(recs) != len(want) || strings.Join(recs, ",") != strings.Join(want, ",") {
+			sig := "records-visible-after-failure"
+			if ok {
+				sig = "records-missing-after-success"
+			}
+			if len(recs) < 2 {
+				sig = "earlier-upload-damaged"
+			}
+			firstDiff := ""
+			for i := range want {
+				if i >= len(recs) || recs[i] != want[i] {
+					firstDiff = want[i]
+					break
+				}
+			}
+			return fail(sig, "%s, %s (HTTP %d), %s: %d results can be queried, want %d; first missing or different: %s", what, outcome, code, stage, len(recs), len(want), firstDiff)
+		}
+		return pass()
+	}
+	if v := judge("right after"); !v.OK {
+		return v
+	}
+	count := func(q string) (int, error) {
+		qq := a.db.Query(q)
+		defer qq.Close()
+		n := 0
+		for qq.Next() {
+			n++
+		}
+		return n, qq.Err()
+	}
+	short := func(q string) string {
+		if len(q) > 120 {
+			return fmt.Sprintf("%s...(%d bytes)...%s", q[:60], len(q), q[len(q)-30:])
+		}
+		return q
+	}
+	if ok {
+		probes := []upBigProbe{{"", total}, {"goos:linux by:user", total}}
+		for f, bf := range files {
+			probes = append(probes, upBigProbe{fmt.Sprintf("upload-part:%s/%d", newID, f), len(bf.names)}, upBigProbe{"upload-file:" + bf.name, len(bf.names)})
+			probes = append(probes, bf.probes...)
+		}
+		for _, p := range probes {
+			q := strings.TrimSpace("upload:" + newID + " " + p.q)
+			n, err := count(q)
+			if err != nil {
+				return fail("query-fails-after-accepted-upload", "%s: query %q fails: %v", what, short(q), err)
+			}
+			if n != p.want {
+				return fail("records-not-queryable-by-label", "%s: query %q returns %d results, want %d", what, short(q), n, p.want)
+			}
+		}
+		// through the HTTP search endpoint as well
+		req := httptest.NewRequest("GET", "/search?q=upload:"+newID, nil)
+		rec := httptest.NewRecorder()
+		a.mux.ServeHTTP(rec, req)
+		if got := strings.Count("\n"+rec.Body.String(), "\nBenchmark"); rec.Code != 200 || got != total {
+			tail := rec.Body.String()
+			if len(tail) > 160 {
+				tail = tail[len(tail)-160:]
+			}
+			return fail("search-incomplete-after-accepted-upload", "%s: GET /search?q=upload:%s: HTTP %d with %d of %d result lines; reply ends %q", what, newID, rec.Code, got, total, tail)
+		}
+	}
+	listed, err := a.listed()
+	if err != nil {
+		return fail("query-fails-after-"+outcome+"-upload", "%s: listing fails: %v", what, err)
+	}
+	wantListed := map[string]int{earlyID: 2}
+	if ok {
+		wantListed[newID] = nrec
+	}
+	if fmt.Sprint(listed) != fmt.Sprint(wantListed) {
+		return fail("listing", "%s, %s: listing shows %v, want %v (records per upload)", what, outcome, listed, wantListed)
+	}
+	// file store
+	stored, err := a.files()
+	if err != nil {
+		return fail("harness", "%v", err)
+	}
+	if _, okf := stored["uploads/"+earlyID+"/0.txt"]; !okf {
+		return fail("earlier-upload-damaged", "the earlier upload's file is gone")
+	}
+	var mine []string
+	for f := range stored {
+		if !strings.HasPrefix(f, "uploads/"+earlyID+"/") {
+			mine = append(mine, f)
+		}
+	}
+	sort.Strings(mine)
+	if !ok {
+		// the files before the large one were complete when the failure happened and may stay; the
+		// file being written must be gone and no later file may have been created
+		for _, m := range mine {
+			var idx int
+			if _, err := fmt.Sscanf(m[strings.LastIndex(m, "/")+1:], "%d.txt", &idx); err != nil || idx >= c.Pos%c.Files {
+				return fail("failed-file-not-removed", "%s refused (HTTP %d) but the file store holds %v", what, code, mine)
+			}
+		}
+	}
+	if ok {
+		for f, bf := range files {
+			p := fmt.Sprintf("uploads/%s/%d.txt", newID, f)
+			content, okf := stored[p]
+			if !okf {
+				return fail("stored-files", "%s accepted but %s is not in the file store (%v)", what, p, mine)
+			}
+			if a.dir == "" {
+				continue
+			}
+			hdr, rest, found := strings.Cut(content, "\n\n")
+			if !found || !strings.Contains("\n"+hdr, "\nupload: "+newID+"\n") || !strings.Contains("\n"+hdr, "\nupload-part: ") {
+				return fail("stored-header", "stored file %s lacks the server's metadata header: %q", p, short(content))
+			}
+			if rest != string(bf.content) {
+				sig := "stored-file-content-differs"
+				if len(rest) < len(bf.content) && rest == string(bf.content[:len(rest)]) {
+					sig = "stored-file-incomplete"
+				}
+				return fail(sig, "%s accepted: stored file %s holds %d bytes after the header, the file sent has %d", what, p, len(rest), len(bf.content))
+			}
+		}
+		if len(mine) != len(files) {
+			return fail("stored-files", "%s accepted: the file store holds %v, want %d files", what, mine, len(files))
+		}
+	}
+	// a later upload: fresh larger ID, complete, everything else as before
+	lateID, lateWant, v := small(c.ID + 8888)
+	if !v.OK {
+		return v
+	}
+	prev := earlyID
+	if ok {
+		prev = newID
+	}
+	if lateID == earlyID || lateID == newID {
+		return fail("id-reused", "the upload after the %s one got ID %s again", outcome, lateID)
+	}
+	if !upIDLess(prev, lateID) {
+		return fail("id-order", "upload ID %s does not follow %s", lateID, prev)
+	}
+	want = append(want, lateWant...)
+	return judge("after a later upload")
+}
+
+// upLongHistory: c.Recs uploads, one after the other, to ONE server (two in five of them fail: a
+// file without benchmark lines, an abort field, an unexpected field, a body cut short).  The
+// statement's rules do not depend on how many uploads came before: after every step exactly the
+// records of the successful uploads can be queried and are listed, IDs have the form
+// YYYYMMDD.N, are never handed out twice and grow (as numbers) with creation order - also past
+// .9, .10, .99, .100.
+func upLongHistory(c *upCase) Verdict {
+	a, err := upNewApp(false, false)
+	if err != nil {
+		return fail("harness", "%v", err)
+	}
+	defer a.close()
+	var want []string
+	wantListed := map[string]int{}
+	seen := map[string]int{}
+	last := ""
+	for i := 1; i <= c.Recs; i++ {
+		files, recs := 1+i%2, 1+i%3
+		salt := c.ID*1000 + i
+		kind := []string{"ok", "ok", "no-benchmark-lines", "ok-commit-field", "abort-field", "ok", "unexpected-field", "ok", "cut", "ok"}[(i+c.ID)%10]
+		var b *upBody
+		var body io.Reader
+		switch kind {
+		case "no-benchmark-lines":
+			b = upBuildBody(files, recs, files, 0, salt)
+		case "abort-field":
+			b = upBuildBodyTail(files, recs, salt, "abort=1")
+		case "unexpected-field":
+			b = upBuildBody(files, recs, 0, files, salt)
+		case "ok-commit-field":
+			b = upBuildBodyTail(files, recs, salt, "commit=1")
+		default:
+			b = upBuildBody(files, recs, 0, 0, salt)
+		}
+		body = bytes.NewReader(b.data)
+		if kind == "cut" {
+			body = io.MultiReader(bytes.NewReader(b.data[:b.recEnd[files-1][recs]-3]), upErrReader{io.ErrUnexpectedEOF})
+		}
+		code, resp := a.post(b.ctype, body)
+		okWanted := strings.HasPrefix(kind, "ok")
+		if (code == 200) != okWanted {
+			return fail("status", "upload %d of the history (%s, %d files x %d records): HTTP %d %q", i, kind, files, recs, code, strings.TrimSpace(resp))
+		}
+		if okWanted {
+			var st struct {
+				UploadID string `json:"uploadid"`
+			}
+			if err := json.Unmarshal([]byte(resp), &st); err != nil || !upIDRe.MatchString(st.UploadID) {
+				return fail("id-format", "upload %d of the history: status %q", i, resp)
+			}
+			if j, dup := seen[st.UploadID]; dup {
+				return fail("id-reused", "upload %d of the history got ID %s, which upload %d already had", i, st.UploadID, j)
+			}
+			if last != "" && !upIDLess(last, st.UploadID) {
+				return fail("id-order", "upload %d of the history got ID %s after %s", i, st.UploadID, last)
+			}
+			seen[st.UploadID], last = i, st.UploadID
+			for f := 1; f <= files; f++ {
+				for r := 1; r <= recs; r++ {
+					want = append(want, fmt.Sprintf("%s/%d|F%dR%d", st.UploadID, f-1, f, r))
+				}
+			}
+			wantListed[st.UploadID] = files * recs
+		}
+		if i%7 != 0 && i != c.Recs && okWanted {
+			continue
+		}
+		got, err := a.records()
+		if err != nil {
+			return fail("query-fails-after-many-uploads", "after upload %d of the history (%s): Query(\"\"): %v", i, kind, err)
+		}
+		w := append([]string(nil), want...)
+		sort.Strings(w)
+		if strings.Join(got, ",") != strings.Join(w, ",") {
+			sig := "records-missing-after-success"
+			if len(got) > len(w) {
+				sig = "records-visible-after-failure"
+			}
+			return fail(sig, "after upload %d of the history (%s): %d records can be queried, want %d (last ID %s)", i, kind, len(got), len(w), last)
+		}
+		listed, err := a.listed()
+		if err != nil {
+			return fail("query-fails-after-many-uploads", "after upload %d of the history: listing: %v", i, err)
+		}
+		if len(listed) != len(wantListed) {
+			return fail("listing", "after upload %d of the history (%s): %d uploads listed, want %d", i, kind, len(listed), len(wantListed))
+		}
+		for id, n := range wantListed {
+			if listed[id] != n {
+				return fail("listing", "after upload %d of the history: upload %s listed with %d records, want %d", i, id, listed[id], n)
+			}
+		}
+	}
+	return pass()
+}
+
 func famUpload(mode string, args []string) error {
 	if mode == "inflight" {
 		return upInflight(args)
@@ -1163,6 +1607,10 @@ func famUpload(mode string, args []string) error {
 			return upLockedRead(&c)
 		case "widefault":
 			return upWideFault(&c)
+		case "big":
+			return upBig(&c)
+		case "history":
+			return upLongHistory(&c)
 		case "ids":
 			evs, v := upReplayIDs(&c)
 			if evOut != nil {
